@@ -53,6 +53,7 @@ fn wrap(ctx: &str, f: Failure) -> Failure {
 fn kind_name(rs: &RS) -> String {
     match rs {
         RS::Syntax => "syntax".into(),
+        RS::WriteThenBadTail { .. } => "write-then-runtime-skip-limit-error".into(),
         RS::CreateNodes { px: Some(p), .. } => format!("create:{:?}", p.kind),
         RS::SetProp { px: Some(p), .. } => format!("set:{:?}", p.kind),
         RS::SetProp { then_delete: true, .. } => "set-then-refused-delete".into(),
